@@ -13,12 +13,20 @@ import (
 	"bytes"
 	"crypto/sha256"
 	"encoding/json"
+	"errors"
 	"fmt"
 	"io"
+	"log"
 	"math/rand"
+	"net"
+	"net/http"
 	"os"
 	"os/exec"
 	"strings"
+	"sync/atomic"
+	"time"
+
+	"github.com/valyala/bytebufferpool"
 
 	"github.com/valyala/fasthttp"
 	"verif/harness/hlib"
@@ -35,7 +43,11 @@ type desc struct {
 	PreCE    string   `json:"prece,omitempty"`
 	Vary     []string `json:"vary,omitempty"`
 	Streamed bool     `json:"streamed,omitempty"`
-	Chunks   []int    `json:"chunks,omitempty"` // body = chunks of these lengths, content from Seed
+	Twice    bool     `json:"twice,omitempty"`    // the handler is wrapped twice
+	NoDefCT  bool     `json:"nodefct,omitempty"`  // Header.SetNoDefaultContentType(true)
+	BodyKind string   `json:"bodykind,omitempty"` // buffered: "" SetBody | raw SetBodyRaw; streamed: "" SetBodyStream(r,-1) | fixed SetBodyStream(r,n) | writer SetBodyStreamWriter
+	Wire     bool     `json:"wire,omitempty"`     // through a real fasthttp.Server and an HTTP client (framing included)
+	Chunks   []int    `json:"chunks,omitempty"`   // body = chunks of these lengths, content from Seed
 	Seed     int64    `json:"seed,omitempty"`
 	// codec
 	Coding string `json:"coding,omitempty"`
@@ -47,6 +59,8 @@ type desc struct {
 	Tok string `json:"tok,omitempty"`
 	// sat: index into the child's results
 	Sat int `json:"sat,omitempty"`
+	// reuse: 5 reader-after-corrupt, 6 writer-after-dst-error, 7 stream-after-body-error
+	Scn int `json:"scn,omitempty"`
 }
 
 var codings = []string{"gzip", "deflate", "br", "zstd"}
@@ -120,6 +134,9 @@ func runHandler(d desc) hlib.Case {
 	}
 	body := genBody(d.Seed, total)
 	inner := func(ctx *fasthttp.RequestCtx) {
+		if d.NoDefCT {
+			ctx.Response.Header.SetNoDefaultContentType(true)
+		}
 		if d.CT != "" {
 			ctx.SetContentType(d.CT)
 		}
@@ -136,7 +153,21 @@ func runHandler(d desc) hlib.Case {
 				chunks = append(chunks, body[off:off+n])
 				off += n
 			}
-			ctx.SetBodyStream(&chunkReader{chunks: chunks}, -1)
+			switch d.BodyKind {
+			case "fixed":
+				ctx.SetBodyStream(&chunkReader{chunks: chunks}, total)
+			case "writer":
+				ctx.SetBodyStreamWriter(func(w *bufio.Writer) {
+					for _, ch := range chunks {
+						w.Write(ch)
+						w.Flush()
+					}
+				})
+			default:
+				ctx.SetBodyStream(&chunkReader{chunks: chunks}, -1)
+			}
+		} else if d.BodyKind == "raw" {
+			ctx.Response.SetBodyRaw(body)
 		} else {
 			ctx.SetBody(body)
 		}
@@ -150,28 +181,42 @@ func runHandler(d desc) hlib.Case {
 	default:
 		h = fasthttp.CompressHandler(inner)
 	}
-	var ctx fasthttp.RequestCtx
-	for _, l := range d.AE {
-		ctx.Request.Header.AddBytesV("Accept-Encoding", l)
-	}
-	h(&ctx)
-	ce := append([]byte(nil), ctx.Response.Header.ContentEncoding()...)
-	var vary [][]byte
-	for _, v := range ctx.Response.Header.PeekAll("Vary") {
-		vary = append(vary, append([]byte(nil), v...))
-	}
-	var raw []byte
-	oErr := false
-	if ctx.Response.IsBodyStream() {
-		var buf bytes.Buffer
-		bw := bufio.NewWriter(&buf)
-		if err := ctx.Response.BodyWriteTo(bw); err != nil {
-			oErr = true
+	if d.Twice {
+		switch d.Kind {
+		case 0:
+			h = fasthttp.CompressHandlerLevel(h, d.OL)
+		case 1:
+			h = fasthttp.CompressHandlerBrotliLevel(h, d.BL, d.OL)
+		default:
+			h = fasthttp.CompressHandler(h)
 		}
-		bw.Flush()
-		raw = buf.Bytes()
+	}
+	var ce, raw []byte
+	var vary [][]byte
+	oErr := false
+	if d.Wire {
+		ce, vary, raw, oErr = overTheWire(h, d.AE)
 	} else {
-		raw = ctx.Response.Body()
+		var ctx fasthttp.RequestCtx
+		for _, l := range d.AE {
+			ctx.Request.Header.AddBytesV("Accept-Encoding", l)
+		}
+		h(&ctx)
+		ce = append([]byte(nil), ctx.Response.Header.ContentEncoding()...)
+		for _, v := range ctx.Response.Header.PeekAll("Vary") {
+			vary = append(vary, append([]byte(nil), v...))
+		}
+		if ctx.Response.IsBodyStream() {
+			var buf bytes.Buffer
+			bw := bufio.NewWriter(&buf)
+			if err := ctx.Response.BodyWriteTo(bw); err != nil {
+				oErr = true
+			}
+			bw.Flush()
+			raw = buf.Bytes()
+		} else {
+			raw = ctx.Response.Body()
+		}
 	}
 	decoded := false
 	if string(ce) == d.PreCE {
@@ -192,16 +237,87 @@ func runHandler(d desc) hlib.Case {
 		chunks[i] = hlib.Z(int64(n))
 	}
 	c := hlib.Case{Kind: "handler", Size: total}
-	c.Coq = hlib.App("CHandler", hlib.N(uint64(d.Kind)), hlib.Z(int64(d.BL)), hlib.Z(int64(d.OL)), bsList(ae), bs([]byte(d.CT)), bs([]byte(d.PreCE)),
+	c.Coq = hlib.App("CHandler", hlib.N(uint64(d.Kind)), hlib.Bool(d.Twice), hlib.Bool(d.NoDefCT), hlib.Z(int64(d.BL)), hlib.Z(int64(d.OL)), bsList(ae), bs([]byte(d.CT)), bs([]byte(d.PreCE)),
 		bsList(varyIn), hlib.Bool(d.Streamed), hlib.List(chunks), bs(ce), bsList(vary), hlib.Bool(oErr), hlib.Bool(decoded))
 	// (the former vary-substring finding, repaired in f11ef83: `Vary: X-Accept-Encoding` inputs stay in the generator)
 	// (streamed zstd bodies of several encoder blocks reproduced zstd-stackless-async-write, repaired in b444fe3)
-	c.Sig = fmt.Sprintf("handler:k%d:ce=%s:pre=%s:s%v:sz%s:v%d:ct%v", d.Kind, ce, d.PreCE, d.Streamed, sizeClass(total), len(vary), d.CT != "")
+	c.Sig = fmt.Sprintf("handler:k%d:ce=%s:pre=%s:s%v%s:sz%s:v%d:ct%v:t%v:w%v:n%v", d.Kind, ce, d.PreCE, d.Streamed, d.BodyKind, sizeClass(total), len(vary), d.CT != "", d.Twice, d.Wire, d.NoDefCT)
 	if total > 1<<16 {
 		sum := sha256.Sum256(body)
 		c.Sig += fmt.Sprintf(":sha%x", sum[:4])
 	}
 	return c
+}
+
+// ---- through a real server: fasthttp.Server over net.Pipe, response read by net/http's client-side parser
+type pipeListener struct{ ch chan net.Conn }
+
+func (l *pipeListener) Accept() (net.Conn, error) {
+	c, ok := <-l.ch
+	if !ok {
+		return nil, io.EOF
+	}
+	return c, nil
+}
+func (l *pipeListener) Close() error   { return nil }
+func (l *pipeListener) Addr() net.Addr { return pipeAddr{} }
+
+type pipeAddr struct{}
+
+func (pipeAddr) Network() string { return "pipe" }
+func (pipeAddr) String() string  { return "pipe" }
+
+var wireLn *pipeListener
+var wireHandler atomic.Pointer[fasthttp.RequestHandler]
+
+func overTheWire(h fasthttp.RequestHandler, ae []hlib.B) (ce []byte, vary [][]byte, raw []byte, oErr bool) {
+	if wireLn == nil {
+		wireLn = &pipeListener{ch: make(chan net.Conn)}
+		srv := &fasthttp.Server{Handler: func(ctx *fasthttp.RequestCtx) { (*wireHandler.Load())(ctx) }, Logger: log.New(io.Discard, "", 0)}
+		go srv.Serve(wireLn)
+	}
+	wireHandler.Store(&h)
+	c1, c2 := net.Pipe()
+	wireLn.ch <- c2
+	defer c1.Close()
+	c1.SetDeadline(time.Now().Add(120 * time.Second))
+	var req bytes.Buffer
+	req.WriteString("GET /x HTTP/1.1\r\nHost: h\r\nConnection: close\r\n")
+	for _, l := range ae {
+		req.WriteString("Accept-Encoding: ")
+		req.Write(l)
+		req.WriteString("\r\n")
+	}
+	req.WriteString("\r\n")
+	go c1.Write(req.Bytes())
+	resp, err := http.ReadResponse(bufio.NewReader(c1), &http.Request{Method: "GET"})
+	if err != nil {
+		return nil, nil, nil, true
+	}
+	raw, err = io.ReadAll(resp.Body)
+	if err != nil {
+		oErr = true
+	}
+	ce = []byte(strings.Join(resp.Header.Values("Content-Encoding"), ","))
+	for _, v := range resp.Header.Values("Vary") {
+		vary = append(vary, []byte(v))
+	}
+	return ce, vary, raw, oErr
+}
+
+// wireSafe: the Accept-Encoding lines reach the handler exactly as given (no blanks for the header parser to strip)
+func wireSafe(ae []hlib.B) bool {
+	for _, l := range ae {
+		if len(l) == 0 || string(l) != strings.Trim(string(l), " \t") {
+			return false
+		}
+		for _, c := range l {
+			if c < 0x20 || c > 0x7e {
+				return false
+			}
+		}
+	}
+	return true
 }
 
 func sizeClass(n int) string {
@@ -238,11 +354,24 @@ func runCodec(d desc) hlib.Case {
 		buf.Write(dst)
 		_, err = writeCoding(d.Coding, &buf, src, d.Level)
 		out = buf.Bytes()
-	default:
+	case 2:
 		var g genericWriter
 		g.buf.Write(dst)
 		_, err = writeCoding(d.Coding, &g, src, d.Level)
 		out = g.buf.Bytes()
+	case 3:
+		bb := bytebufferpool.Get()
+		bb.Write(dst)
+		_, err = writeCoding(d.Coding, bb, src, d.Level)
+		out = append([]byte(nil), bb.B...)
+		bytebufferpool.Put(bb)
+	case 4:
+		out = appendDefault(d.Coding, append([]byte(nil), dst...), src)
+	default:
+		var buf bytes.Buffer
+		buf.Write(dst)
+		_, err = writeDefault(d.Coding, &buf, src)
+		out = buf.Bytes()
 	}
 	prefix := bytes.HasPrefix(out, dst)
 	decoded := prefix && decodesTo(d.Coding, out[len(dst):], src)
@@ -315,6 +444,107 @@ func runSat(d desc) hlib.Case {
 	return c
 }
 
+// ---- pooled readers / writers after a failed operation
+type failingWriter struct{ left int }
+
+func (f *failingWriter) Write(p []byte) (int, error) {
+	if f.left <= 0 {
+		return 0, errors.New("destination failed")
+	}
+	n := min(f.left, len(p))
+	f.left -= n
+	if n < len(p) {
+		return n, errors.New("destination failed")
+	}
+	return n, nil
+}
+
+type failingBody struct {
+	data []byte
+}
+
+func (b *failingBody) Read(p []byte) (int, error) {
+	if len(b.data) == 0 {
+		return 0, errors.New("body stream failed")
+	}
+	n := copy(p, b.data)
+	b.data = b.data[n:]
+	return n, nil
+}
+
+func runReuse(d desc) hlib.Case {
+	k := d.Coding
+	src := genBody(77, 5000)
+	n, bad, errs := 0, 0, 0
+	roundTrips := func() {
+		for i := 0; i < 3; i++ {
+			b := genBody(int64(100+i), 300+i*4000)
+			n++
+			if !decodesTo(k, appendCoding(k, nil, b, d.Level), b) {
+				bad++
+			}
+			var g genericWriter
+			n++
+			if _, err := writeCoding(k, &g, b, d.Level); err != nil {
+				errs++
+			} else if !decodesTo(k, g.buf.Bytes(), b) {
+				bad++
+			}
+		}
+	}
+	switch d.Scn {
+	case 5: // decoders fed corrupt input, then valid input
+		good := appendCoding(k, nil, src, d.Level)
+		flipped := append([]byte(nil), good...)
+		flipped[len(flipped)/2] ^= 0x55
+		for _, c := range [][]byte{good[:len(good)/2], flipped, []byte("not a compressed stream at all"), nil, good[:1]} {
+			decodeOwn(k, c) // result irrelevant: it must not poison the pooled reader
+			var sink bytes.Buffer
+			writeDecoded(k, &sink, c)
+		}
+		roundTrips()
+	case 6: // Write*Level to a destination that fails, at several points of the stream
+		for _, left := range []int{0, 1, 5, 11, 40} {
+			writeCoding(k, &failingWriter{left: left}, genBody(5, 200000), d.Level)
+		}
+		roundTrips()
+	default: // a streamed response whose body stream fails, then healthy streamed responses at the same level
+		mk := func(body io.Reader) *fasthttp.RequestCtx {
+			var ctx fasthttp.RequestCtx
+			ctx.Request.Header.Set("Accept-Encoding", k)
+			h := fasthttp.CompressHandlerBrotliLevel(func(ctx *fasthttp.RequestCtx) {
+				ctx.SetContentType("text/plain")
+				ctx.SetBodyStream(body, -1)
+			}, d.Level, d.Level)
+			h(&ctx)
+			return &ctx
+		}
+		for i := 0; i < 3; i++ {
+			ctx := mk(&failingBody{data: genBody(int64(i), 1000*i)})
+			ctx.Response.BodyWriteTo(io.Discard) // fails: expected
+		}
+		for i := 0; i < 4; i++ {
+			b := genBody(int64(200+i), 100+i*3000)
+			ctx := mk(&chunkReader{chunks: [][]byte{b}})
+			var buf bytes.Buffer
+			bw := bufio.NewWriter(&buf)
+			n++
+			if err := ctx.Response.BodyWriteTo(bw); err != nil {
+				errs++
+				continue
+			}
+			bw.Flush()
+			if string(ctx.Response.Header.ContentEncoding()) != k || !decodesTo(k, buf.Bytes(), b) {
+				bad++
+			}
+		}
+	}
+	c := hlib.Case{Kind: fmt.Sprintf("reuse-%d", d.Scn), Size: n}
+	c.Coq = hlib.App("CSat", hlib.N(uint64(d.Scn)), hlib.N(uint64(codingIndex(k))), hlib.Z(int64(d.Level)), hlib.Z(int64(n)), hlib.Z(int64(bad)), hlib.Z(int64(errs)), hlib.Bool(false))
+	c.Sig = fmt.Sprintf("reuse:%d:%s:l%d:bad%v", d.Scn, k, d.Level, bad > 0)
+	return c
+}
+
 func run(d desc) hlib.Case {
 	switch d.T {
 	case "handler":
@@ -325,6 +555,8 @@ func run(d desc) hlib.Case {
 		return runHas(d)
 	case "sat":
 		return runSat(d)
+	case "reuse":
+		return runReuse(d)
 	case "const":
 		return hlib.Case{Kind: "const", Sig: "const", Coq: hlib.App("CConst", hlib.Z(int64(fasthttp.CompressZstdSpeedNotSet)), hlib.Z(int64(fasthttp.CompressZstdDefault)), hlib.Z(int64(fasthttp.CompressZstdBestCompression)))}
 	}
@@ -419,11 +651,26 @@ func genHandler(r *rand.Rand) desc {
 	} else {
 		d.Chunks = []int{total}
 	}
+	if d.Streamed {
+		d.BodyKind = hlib.Pick(r, []string{"", "", "fixed", "writer"})
+	} else {
+		d.BodyKind = hlib.Pick(r, []string{"", "", "raw"})
+	}
+	d.Twice = r.Intn(8) == 0
+	d.NoDefCT = r.Intn(8) == 0
+	varyLines := make([]hlib.B, len(d.Vary))
+	for i, v := range d.Vary {
+		varyLines[i] = hlib.B(v)
+	}
+	d.Wire = r.Intn(4) == 0 && wireSafe(d.AE) && wireSafe(varyLines) // values the HTTP parsers do not trim
 	return d
 }
 
 func genCodec(r *rand.Rand) desc {
-	d := desc{T: "codec", Coding: hlib.Pick(r, codings), Level: r.Intn(21) - 5, Path: r.Intn(3), Seed: r.Int63(), SrcLen: genSize(r, thoroughRun)}
+	d := desc{T: "codec", Coding: hlib.Pick(r, codings), Level: r.Intn(21) - 5, Path: r.Intn(6), Seed: r.Int63(), SrcLen: genSize(r, thoroughRun)}
+	if r.Intn(20) == 0 {
+		d.Level = hlib.Pick(r, []int{-1000, 1000, 1<<31 - 1, -(1 << 31), 100, -100})
+	}
 	if r.Intn(2) == 0 {
 		d.DstLen = r.Intn(64)
 	}
@@ -504,6 +751,31 @@ func corpus() []desc {
 		desc{T: "codec", Coding: "zstd", Level: 2, Path: 2, SrcLen: zstdBlock, Seed: 43}, desc{T: "codec", Coding: "zstd", Level: 2, Path: 1, SrcLen: 4 << 20, Seed: 44},
 		desc{T: "handler", Kind: 0, OL: 2, AE: B("zstd"), Chunks: []int{4 << 20}, Streamed: true, Seed: 45},
 		desc{T: "handler", Kind: 0, OL: 2, AE: B("zstd"), Chunks: []int{4 << 20}, Seed: 46})
+	// body kinds, double wrapping, no default content type, through a real server
+	for _, k := range codings {
+		for _, bk := range []string{"fixed", "writer"} {
+			c = append(c, desc{T: "handler", Kind: 1, BL: 3, OL: 3, AE: B(k), Chunks: []int{700, 0, 900}, Streamed: true, BodyKind: bk, Seed: 50},
+				desc{T: "handler", Kind: 1, BL: 3, OL: 3, AE: B(k), Chunks: []int{700, 900}, Streamed: true, BodyKind: bk, Wire: true, Seed: 51})
+		}
+		c = append(c, desc{T: "handler", Kind: 1, BL: 3, OL: 3, AE: B(k), Chunks: []int{1500}, BodyKind: "raw", Seed: 52},
+			desc{T: "handler", Kind: 1, BL: 3, OL: 3, AE: B(k), Chunks: []int{1500}, Wire: true, Seed: 53},
+			desc{T: "handler", Kind: 1, BL: 3, OL: 3, AE: B(k), Chunks: []int{1500}, Twice: true, Seed: 54},
+			desc{T: "handler", Kind: 1, BL: 3, OL: 3, AE: B(k), Chunks: []int{900, 900}, Streamed: true, Twice: true, Wire: true, Seed: 55},
+			desc{T: "handler", Kind: 1, BL: 3, OL: 3, AE: B(k), Chunks: []int{100}, Twice: true, Seed: 56},
+			desc{T: "handler", Kind: 1, BL: 3, OL: 3, AE: B(k), Chunks: []int{1500}, NoDefCT: true, Seed: 57},
+			desc{T: "handler", Kind: 1, BL: 3, OL: 3, AE: B(k), CT: "text/css", Chunks: []int{1500}, NoDefCT: true, Wire: true, Seed: 58})
+		for scn := 5; scn <= 7; scn++ {
+			c = append(c, desc{T: "reuse", Scn: scn, Coding: k, Level: 2})
+		}
+		for _, lvl := range []int{-1000, 1000, 1<<31 - 1, -(1 << 31)} {
+			c = append(c, desc{T: "codec", Coding: k, Level: lvl, Path: 0, SrcLen: 2000, Seed: 60}, desc{T: "codec", Coding: k, Level: lvl, Path: 2, SrcLen: 2000, Seed: 61})
+		}
+		for path := 3; path <= 5; path++ {
+			c = append(c, desc{T: "codec", Coding: k, Level: 5, Path: path, SrcLen: 3000, DstLen: 3, Seed: 62})
+		}
+	}
+	c = append(c, desc{T: "handler", Kind: 2, AE: B("gzip"), PreCE: "gzip", Chunks: []int{1500}, Twice: true, Seed: 63},
+		desc{T: "handler", Kind: 0, OL: 6, AE: B("gzip;q=0, deflate"), Vary: []string{"Origin"}, Chunks: []int{800}, Wire: true, Seed: 64})
 	// codecs: every coding at every level -5..15, every path, empty and small inputs
 	for _, k := range codings {
 		for lvl := -5; lvl <= 15; lvl++ {
